@@ -14,7 +14,7 @@ from ._optionals import (
     pyyaml_available,
 )
 from ._typehints import ActionTypeHint
-from ._util import NoneType, Path, argument_error
+from ._util import NoneType, Path
 
 __all__ = ["ActionJsonnet"]
 
@@ -167,7 +167,7 @@ class ActionJsonnet(Action):
             with parser_context(load_value_mode="yaml" if pyyaml_available else "json"):
                 values = load_value(_jsonnet.evaluate_snippet(fname, snippet, ext_vars=ext_vars, ext_codes=ext_codes))
         except RuntimeError as ex:
-            raise argument_error(f'Problems evaluating jsonnet "{fname}": {ex}') from ex
+            raise TypeError(f'Problems evaluating jsonnet "{fname}": {ex}') from ex
         if self._validator is not None:
             self._validator.validate(values)
         if with_meta:
